@@ -14,7 +14,8 @@ from vlib.runner import HarnessError
 
 ID = "C10"
 TITLE = "Validators run exactly when their inputs are valid; all errors are merged"
-RULE = ("Programs are rendered dataclasses with 1-3 int fields (required / defaulted / InitVar, optionally aliased, constrained by "
+RULE = ("Programs are rendered dataclasses with 1-3 int fields (required / defaulted / InitVar, optionally aliased, optionally linked by "
+        "dependent_required - a missing dependent field counts as invalid -, constrained by "
         "schema(min=0)) and 1-3 validators.  Per validator: the set of fields it reads (directly, through a helper method, through a "
         "property), declared InitVar parameters, field= / discard= (including a discarded field it does not read), failure form (raise, "
         "yield message, yield (alias path, message), yield (raw path, message)), placement (class body, base class, function with owner=).  "
@@ -78,8 +79,16 @@ def enumerate_cases(tier):
                                     v["field"] = None
                                 if fields[v["path_field"]]["kind"].startswith("iv"):
                                     v["path_field"] = next(i for i, f in enumerate(fields) if not f["kind"].startswith("iv"))
-                            yield {"fields": fields, "split": None, "cls_aliaser": "upper" if (hv // 23) % 4 == 0 else None,
-                                   "validators": vals, "dyn": ["id", "camel", "pfx"][(hv // 29) % 3]}
+                            case = {"fields": fields, "split": None, "cls_aliaser": "upper" if (hv // 23) % 4 == 0 else None,
+                                    "validators": vals, "dyn": ["id", "camel", "pfx"][(hv // 29) % 3]}
+                            yield case
+                            # dependent_required between two fields: a missing dependent field is invalid for the validators
+                            defs = [i for i in range(n) if fkinds[i] == "def"]
+                            others = [i for i in range(n) if not fkinds[i].startswith("iv")]
+                            if defs and len(others) >= 2 and variant == 0:
+                                b_ = defs[(hv // 31) % len(defs)]
+                                a_ = [i for i in others if i != b_][(hv // 37) % (len(others) - 1)]
+                                yield dict(case, dep_req=[a_, b_])
 
 
 @st.composite
@@ -111,8 +120,13 @@ def strategy_(draw, tier):
                 v["discard"] = None
             if v["path_field"] >= split:
                 v["path_field"] = 0
-    return {"fields": fields, "split": split, "cls_aliaser": pick(draw, [None, None, "upper"]), "validators": vals,
+    case = {"fields": fields, "split": split, "cls_aliaser": pick(draw, [None, None, "upper"]), "validators": vals,
             "dyn": pick(draw, ["id", "camel", "pfx"])}
+    defs = [i for i, f in enumerate(fields) if f["kind"] == "def"]
+    if split is None and defs and len(real) >= 2 and chance(draw, 0.4):
+        b_ = pick(draw, defs)
+        case["dep_req"] = [pick(draw, [i for i in real if i != b_]), b_]
+    return case
 
 
 def strategy(tier):
@@ -192,6 +206,9 @@ def render(p) -> str:
         lines.append(f"@alias({p['cls_aliaser']})")
     lines += ["@dataclass(kw_only=True)", "class C(Base):" if split else "class C:"]
     lines += [fline(i) for i in range(split or 0, n)]
+    if p.get("dep_req"):
+        a_, b_ = p["dep_req"]
+        lines.append(f"    _dep = dependent_required({{{fields[a_]['n']!r}: [{fields[b_]['n']!r}]}})")
     ivs_all = [f["n"] for f in fields if f["kind"].startswith("iv")]
     lines += ["    def __post_init__(self" + "".join(f", {x}" for x in ivs_all) + "):", "        LOG.append('init')"]
     for v in vals:
@@ -246,6 +263,10 @@ def expected(p, status, ctrl):
             invalid.add(i)
         elif req:
             errors.append(((ext(p, i),), "missing property"))
+            invalid.add(i)
+        elif p.get("dep_req") and p["dep_req"][1] == i and status[p["dep_req"][0]] != "absent":
+            # dependent_required: the requiring property is in the data (valid or not), this one is not
+            errors.append(((ext(p, i),), f"missing property (required by [{ext(p, p['dep_req'][0])!r}])"))
             invalid.add(i)
     structural = bool(errors)
     # registration order: class-body validators of C, then functions (registered after the class); base class apart
